@@ -364,11 +364,16 @@ def source_text(e, kind, atom=None):
     return POSITIONS[kind][0] % src(e, 0, atom)
 
 
+_KEEP = []       # the harness keeps every code object it compiles alive: these checks are about the decompiler proper; the
+                 # address-keyed tree cache of decompile() is exercised by tools/c03_cache.py (short-lived objects)
+
 def compile_code(text):
     """code object of the generator / lambda written in `text`"""
     with warnings.catch_warnings():
         warnings.simplefilter('ignore')
-        return compile(text, '<c03>', 'eval').co_consts[0]
+        code = compile(text, '<c03>', 'eval').co_consts[0]
+    _KEEP.append(code)
+    return code
 
 
 def real_decompile(text):
